@@ -190,6 +190,11 @@ func main() {
 		return
 	}
 	// discharge
+	kfile := loadKnown(filepath.Join(*verifDir, "known_findings.json"))
+	knownSet := map[string]bool{}
+	for _, k := range kfile.Known {
+		knownSet[k.Func+" :: "+k.Obligation] = true
+	}
 	var wg sync.WaitGroup
 	sem := make(chan struct{}, 6)
 	for i, it := range run.items {
@@ -202,7 +207,11 @@ func main() {
 			if it.Obl.Cover {
 				want = "sat"
 			}
-			it.Res = solve(scratch, i, it.Enc, it.Obl, timeout, *seed, *tier == "thorough")
+			t := timeout
+			if knownSet[it.Obl.Func+" :: "+it.Obl.Name] && *tier != "thorough" {
+				t = 3 // recorded finding: expected to stay undischarged; do not spend the full budget on it
+			}
+			it.Res = solve(scratch, i, it.Enc, it.Obl, t, *seed, *tier == "thorough")
 			it.OK = it.Res.Status == want && it.Res.Conflict == ""
 		}(i, it)
 	}
